@@ -1223,6 +1223,15 @@ class Ev:
                 out.cells = {kk: one(c) for kk, c in u.cells.items()}
                 out.is_cond = True
                 return out
+        for u, v, flipped in ((a, b, False), (b, a, True)):
+            # a small array of expressions compared with a number: one condition per cell
+            if isinstance(u, ArrV) and is_sym(v) and v.is_number and isinstance(op, (ast.Lt, ast.LtE, ast.Gt, ast.GtE)) and u.shape \
+                    and all(is_sym(c) for c in list(u.cells.values()) + [u.fill]):
+                out = ArrV(u.batch, u.shape, None, batch_last=u.batch_last)
+                for kk in itertools.product(*[range(d_) for d_ in u.shape]):
+                    out.cells[kk] = self.compare(op, v, u.get(kk), n, mod) if flipped else self.compare(op, u.get(kk), v, n, mod)
+                out.is_cond = True
+                return out
         if is_sym(a) and is_sym(b) and not (a.is_number and b.is_number) and isinstance(op, (ast.Eq, ast.NotEq, ast.Lt, ast.LtE, ast.Gt, ast.GtE)):
             # the sign of the difference is known from the declared signs of the atoms (weights, volumes, counts are positive)
             d = a - b
@@ -4184,12 +4193,47 @@ def lib_opaque_reduce(name):
     return f
 
 
+def _series_guard(cond, x, y):
+    """numpy.where(u < c, approximation, exact) (or `u > c` with the branches swapped) for a small positive constant c: when the first
+    neglected term of the expansion of `exact` around u = 0, at u = c, is below the unit round-off relative to the value there, the
+    selection is `exact` to working precision on the whole domain; returns that branch, or None"""
+    if not (isinstance(cond, CondV) and cond.op in ("<", "<=", ">", ">=") and is_sym(x) and is_sym(y)):
+        return None
+    u, c = cond.lhs, cond.rhs
+    op = cond.op
+    if is_sym(u) and u.is_number and is_sym(c) and not c.is_number:
+        u, c, op = c, u, {"<": ">", "<=": ">=", ">": "<", ">=": "<="}[op]
+    if not (is_sym(c) and c.is_number and c > 0 and c < 1 and is_sym(u) and u.free_symbols):
+        return None
+    approx, exact = (x, y) if op in ("<", "<=") else (y, x)
+    z = sp.Dummy("z", positive=True)
+    a_z, e_z = sp.sympify(approx).subs(u, z), sp.sympify(exact).subs(u, z)
+    if (a_z.free_symbols | e_z.free_symbols) - {z} or z not in e_z.free_symbols:
+        return None
+    try:
+        lead = sp.series(e_z - a_z, z, 0, 8).removeO()
+        lead = sp.expand(lead)
+        if lead == 0:
+            return exact
+        terms = sorted(sp.Add.make_args(lead), key=lambda t: sp.degree(t, z))
+        first = terms[0]
+        ref = sp.limit(e_z, z, 0)
+    except Exception:
+        return None
+    if sp.degree(first, z) < 1 or not ref.is_number or ref == 0:
+        return None
+    bound = abs(first.subs(z, c)) * 2 / abs(ref)
+    return exact if bound <= sp.Rational(1, 2 ** 52) else None
+
+
 def lib_where3(ev, a, k, n, mod):
     if len(a) == 1:
         return lib_where(ev, a, k, n, mod)
     cond, x, y = a
     if isinstance(cond, bool):
         return x if cond else y
+    if isinstance(cond, CondV) and _series_guard(cond, x, y) is not None:
+        return _series_guard(cond, x, y)
     if isinstance(cond, CondV):
         # an exact `== 0` guard on the value that is returned otherwise is the identity wherever that value is non-zero
         if cond.op == "==" and is_sym(cond.rhs) and cond.rhs == 0 and is_sym(cond.lhs) and as_sym(y) == cond.lhs:
@@ -4220,6 +4264,9 @@ def lib_where3(ev, a, k, n, mod):
                 out.cells[key] = cell(x, key)
             elif c is False or c == sp.false or (is_sym(c) and c == 0):
                 out.cells[key] = cell(y, key)
+            elif isinstance(c, CondV):
+                g = _series_guard(c, cell(x, key), cell(y, key))
+                out.cells[key] = g if g is not None else sp.Function("WHERE")(sp.Symbol("cond[" + c.text + "]"), cell(x, key), cell(y, key))
             else:
                 out.cells[key] = sp.Function("WHERE")(c, cell(x, key), cell(y, key))
         return out
